@@ -13,6 +13,7 @@ import os
 import sys
 import time
 import traceback
+from concurrent.futures import TimeoutError  # noqa: A004
 
 HERE = os.path.dirname(os.path.abspath(__file__))
 sys.path.insert(0, HERE)
@@ -92,17 +93,34 @@ def main():
             i0 = min(range(len(shards)), key=lambda i: shards[i].get("weight", 1))
             fut2 = ex.submit(_run_shard, (modname, shards[i0], tier, seed))
             results = []
+            # horizon: a shard that does not finish is reported as such (a change that makes the code under test loop forever must
+            # not hang the check); quick shards take well under 2 minutes, thorough shards well under 30
+            limit = float(os.environ.get("VERIF_SHARD_TIMEOUT", "900" if tier == "quick" else "7200"))
+            deadline = time.time() + limit
+            timed_out = False
             for i in range(len(shards)):
                 try:
-                    results.append(futs[i].result())
+                    results.append(futs[i].result(timeout=max(1.0, deadline - time.time())))
+                except TimeoutError:
+                    timed_out = True
+                    results.append(dict(shard=str(shards[i].get("name")), evaluations=0, nontrivial=0, samples=[], violations=[], n_violations=0,
+                                        viol_sigs={}, counters={}, outcomes=[], digest="crash", notes=[], capped=True, wall_s=limit,
+                                        crash="shard did not finish within %.0f s (non-termination or far slower than on the unchanged tree)" % limit))
                 except Exception as e:  # noqa: BLE001 - a worker process died (segfault / abort inside native code)
                     results.append(dict(shard=str(shards[i].get("name")), evaluations=0, nontrivial=0, samples=[], violations=[], n_violations=0,
                                         viol_sigs={}, counters={}, outcomes=[], digest="crash", notes=[], capped=False, wall_s=0.0,
                                         crash="worker process died while running this shard (or a shard sharing the pool): %s: %s" % (type(e).__name__, e)))
             try:
-                r2 = fut2.result()
-            except Exception:  # noqa: BLE001
+                r2 = fut2.result(timeout=max(1.0, deadline - time.time()))
+            except BaseException:  # noqa: BLE001
                 r2 = dict(digest="crash")
+            if timed_out:
+                for pr in list(getattr(ex, "_processes", {}).values()):
+                    try:
+                        pr.kill()
+                    except Exception:  # noqa: BLE001
+                        pass
+                ex.shutdown(wait=False, cancel_futures=True)
     crashes = [r for r in results if r.get("crash")]
     det = None
     if shards and not crashes and not (a.inproc or jobs == 1 and len(shards) == 1):
